@@ -76,7 +76,7 @@ func VerifC37_hooks() {
 	linked := verifChoose(2) == 1
 	t := &Tracer{propagators: p, tracer: tr, linkSpans: linked, clientID: "c", consumerGroup: "g"}
 
-	r, snap := verifC37RecordN(2, false)
+	r, snap := verifC37RecordN(2, false, false)
 	r.Topic = "t"
 	r.Context = context.Background()
 	t.OnProduceRecordBuffered(r)
